@@ -431,6 +431,7 @@ inline J plan_c18(uint64_t verif_seed, uint64_t index, int tier) {
             rd.set("file", file);
             rd.set("repeat", pick_repeat(rsch));
             if (rsch.chance(0.15)) rd.set("no_error_code", true);  // the out-parameter is optional
+            if (oas && i == 1 && rsch.chance(0.3)) rd.set("no_signature", true);  // so is the computed signature
             if (!oas && i == 2 && rsch.chance(0.25)) rd.set("reuse_summary", true);
             if (i == 0 && !oas && rsch.chance(0.3)) {
                 static const double units[] = {1e-6, 1e-9, 1e-3};
@@ -449,6 +450,7 @@ inline J plan_c18(uint64_t verif_seed, uint64_t index, int tier) {
         sw.set("readers", rl);
         sw.set("repeat_every", (int64_t)rf.range(3, 40));
         sw.set("no_error_code_every", (int64_t)rf.range(2, 9));
+        if (oas) sw.set("no_signature_every", (int64_t)rf.range(3, 4));
         ops.push(sw);
     } else {
         // damage at rest: cuts at interesting places and at random offsets
@@ -900,6 +902,7 @@ inline J plan_c17(uint64_t verif_seed, uint64_t index, int tier) {
     cfg.max_vertices = (int)ro.range(4, 24);
     cfg.simple_polys_only = false;
     cfg.dangling = ro.chance(0.25);  // references to structures the file does not hold
+    cfg.long_strings = ro.chance(0.2);  // header and text records up to the size of one record
     int source = (int)ro.below(3);  // 0 write_gds, 1 GdsWriter, 2 peer
     model::MLib m = gen::library(rm, cfg);
     if (source == 2) {
@@ -1224,9 +1227,7 @@ inline J plan_c02(uint64_t verif_seed, uint64_t index, int tier) {
     cfg.max_elems = (int)ro.range(1, tier ? 16 : 10);
     cfg.max_vertices = (int)ro.range(4, 40);
     cfg.big_polygons = ro.chance(0.02);
-    // C02 quantifies over simple paths only.  (Observed while building this check and outside the
-    // property: write_oas keeps pointers to the property values of the temporary polygons of a
-    // non-simple path after freeing them - DESIGN.md section 6.)
+    // C02 quantifies over simple paths only (paths written as outlines are C04's: finding F30)
     cfg.nonsimple_paths = false;
     cfg.robust_paths = ro.chance(0.4);
     cfg.multi_element_simple_paths = true;
@@ -1359,6 +1360,9 @@ inline J plan_c04(uint64_t verif_seed, uint64_t index, int tier) {
         cfg.max_elems = (int)ro.range(1, tier ? 14 : 9);
         cfg.max_vertices = (int)ro.range(4, 40);
         cfg.robust_paths = ro.chance(0.3);
+        // "all libraries gdstk can write": paths that are not written as PATH records go out as the polygons of
+        // their outline (C02 leaves them out, this direction of C04 does not)
+        cfg.nonsimple_paths = ro.chance(0.3);
         cfg.multi_element_simple_paths = true;
         cfg.rings = true;
         cfg.named_props_in_gds = true;
